@@ -21,6 +21,7 @@ class ScanModel:
         self.default_line = None
         self.branches = []  # ordered list of (classifier, action) for reporting
         self.conflicts = []
+        self.side_statements = []  # (line, text): bookkeeping on non-cursor fields met in branch bodies
 
 
 def _self_call(node, name=None):
@@ -33,6 +34,25 @@ def _self_call(node, name=None):
     ):
         return node.func.attr
     return None
+
+
+CURSOR_FIELDS = {"tokens", "start", "current", "code"}
+
+
+def _side_statement(st):
+    """`self.<field> = ...` / `self.<field> += ...` / `self.<field>.append(...)` on a field that is not part of the cursor"""
+    if isinstance(st, (ast.Assign, ast.AugAssign)):
+        tgt = st.target if isinstance(st, ast.AugAssign) else st.targets[0]
+        base = tgt
+        while isinstance(base, ast.Subscript):
+            base = base.value
+        ok = isinstance(base, ast.Attribute) and isinstance(base.value, ast.Name) and base.value.id == "self" and base.attr not in CURSOR_FIELDS
+        return ok and not any(isinstance(n, ast.Call) and _self_call(n) in ("advance", "match", "add_token") for n in ast.walk(st))
+    if isinstance(st, ast.Expr) and isinstance(st.value, ast.Call) and isinstance(st.value.func, ast.Attribute) and st.value.func.attr in ("append", "add") \
+            and isinstance(st.value.func.value, ast.Attribute) and isinstance(st.value.func.value.value, ast.Name) and st.value.func.value.value.id == "self" \
+            and st.value.func.value.attr not in CURSOR_FIELDS:
+        return not any(isinstance(n, ast.Call) and _self_call(n) in ("advance", "match", "add_token") for n in ast.walk(st.value.args[0] if st.value.args else st))
+    return False
 
 
 def extract_scan_token(prog):
@@ -91,6 +111,20 @@ def extract_scan_token(prog):
 
     def action(cls, stmts, line):
         stmts = strip_docstring(stmts)
+        # bookkeeping on other scanner fields (counters, position lists) does not change which token is produced: it is
+        # recorded (sm.side_statements) and skipped here; the rules that depend on such fields look at them themselves
+        kept = []
+        for st in stmts:
+            tgt = st.target if isinstance(st, ast.AugAssign) else (st.targets[0] if isinstance(st, ast.Assign) and len(st.targets) == 1 else None)
+            if isinstance(st, ast.If) and not st.orelse and all(_side_statement(x) for x in st.body) and not any(
+                    isinstance(n, ast.Call) and _self_call(n) in ("advance", "match", "add_token") for n in ast.walk(st.test)):
+                sm.side_statements.append((line, unparse(st)))
+                continue
+            if tgt is not None and _side_statement(st):
+                sm.side_statements.append((line, unparse(st)))
+                continue
+            kept.append(st)
+        stmts = kept
         if len(stmts) == 1 and isinstance(stmts[0], ast.Pass):
             return ("skip",)
         if len(stmts) == 1 and isinstance(stmts[0], ast.Expr) and _self_call(stmts[0].value, "add_token") and stmts[0].value.args \
